@@ -567,4 +567,35 @@ theorem finish_wf {cfg : CloneCfg} {sch : Schema} (hw : sch.WF) {s : Store} (hs 
     split <;> exact hs
   | firstOrCreate inl => exact firstOrCreate_wf hw hs _ _ _ _ ho.2
 
+/-! ### the record built from the conditions -/
+
+mutual
+  /-- the equalities a condition contributes to a new record: `Eq` atoms, also inside And-groups;
+      raw SQL text contributes nothing -/
+  def Cond.eqs : Cond → List (Nat × Nat)
+    | .eq c v => [(c, v)]
+    | .raw _ _ => []
+    | .andG l => eqsAll l
+  def eqsAll : List Cond → List (Nat × Nat)
+    | [] => []
+    | x :: xs => x.eqs ++ eqsAll xs
+end
+
+theorem setAll_append (a b : List (Nat × Nat)) : ∀ r : Row, setAll r (a ++ b) = setAll (setAll r a) b := by
+  induction a with
+  | nil => intro r; rfl
+  | cons x xs ih => intro r; simp [setAll, ih]
+
+mutual
+  theorem Cond.assign_eq (r : Row) : (c : Cond) → c.assign r = setAll r c.eqs
+    | .eq c v => by simp [Cond.assign, Cond.eqs, setAll]
+    | .raw _ _ => by simp [Cond.assign, Cond.eqs, setAll]
+    | .andG l => by simp [Cond.assign, Cond.eqs, assignAll_eq r l]
+  theorem assignAll_eq (r : Row) : (l : List Cond) → assignAll r l = setAll r (eqsAll l)
+    | [] => by simp [assignAll, eqsAll, setAll]
+    | x :: xs => by
+      simp only [assignAll, eqsAll, setAll_append]
+      rw [Cond.assign_eq r x, assignAll_eq _ xs]
+end
+
 end Gorm.Upsert
